@@ -225,6 +225,70 @@ Section PoolFacts.
     - apply upgrade_preserves_ok; auto.
   Qed.
 
+  (* ---- the chain moves: blocks are applied and deleted while commits sit in the pool *)
+  Definition env_agrees_at (e e' : env) (h : N) : Prop :=
+    chain_at (e_chain e) h = chain_at (e_chain e') h /\ get_params e h = get_params e' h.
+
+  Lemma valid_commit_env : forall e e' c, env_agrees_at e e' (sc_height c) -> valid_commit e c -> valid_commit e' c.
+  Proof.
+    intros e e' c [A B] [hd [p [v [H1 [H2 [H3 [H4 H5]]]]]]]. exists hd, p, v. rewrite <- A, <- B. auto.
+  Qed.
+
+  Lemma pool_ok_env : forall e e' l, (forall c, In c l -> env_agrees_at e e' (sc_height c)) -> pool_ok e l -> pool_ok e' l.
+  Proof.
+    intros e e' l H [V N]. split; auto. apply Forall_forall. intros c Hc.
+    eapply valid_commit_env; eauto. eapply Forall_forall in V; eauto.
+  Qed.
+
+  (* deleteBlock at height H: whatever the chain looks like afterwards at heights >= H, the purged pool is valid
+     with respect to it, as long as the chain below H is untouched *)
+  Theorem delete_block_preserves_ok : forall e e' p H,
+    pool_ok e (all p) -> (forall h, h < H -> env_agrees_at e e' h) -> pool_ok e' (all (on_delete_block p H)).
+  Proof.
+    intros e e' p H Hok Hag. unfold on_delete_block.
+    apply (pool_ok_env e e').
+    - intros c Hc. apply Hag. unfold all, cleanup in Hc. simpl in Hc. rewrite <- filter_app in Hc.
+      apply filter_In in Hc. destruct Hc as [_ Hc]. apply N.ltb_lt in Hc. auto.
+    - apply cleanup_preserves_ok; auto.
+  Qed.
+
+  (* one pool operation of the node under the view e *)
+  Inductive pool_step (e : env) : pool -> pool -> Prop :=
+  | ps_gossip : forall p m, pool_step e p (fst (single_commit_validator msg_of vrf e p m))
+  | ps_certify : forall p from to a, chain_wf e -> own_key_registered e a -> pool_step e p (fst (certify sign_own e p from to a))
+  | ps_cleanup : forall p keep, pool_step e p (cleanup p keep)
+  | ps_select : forall p mhp limit, pool_step e p (snd (select p mhp limit))
+  | ps_upgrade : forall p cs, pool_step e p (upgrade p cs).
+
+  Lemma pool_step_ok : forall e p p', pool_step e p p' -> pool_ok e (all p) -> pool_ok e (all p').
+  Proof.
+    intros e p p' S Hok. destruct S.
+    - destruct (single_commit_validator msg_of vrf e p m) as [p' r] eqn:E. simpl. eapply scv_preserves_ok; eauto.
+    - destruct (certify sign_own e p from to a) as [p' r] eqn:E. simpl. eapply certify_preserves_ok; eauto.
+    - apply cleanup_preserves_ok; auto.
+    - apply select_preserves_ok; auto.
+    - apply upgrade_preserves_ok; auto.
+  Qed.
+
+  (* every history: pool operations interleaved with blocks being applied (the headers and parameters at the heights
+     of pooled commits do not change) and blocks being deleted and replaced (nothing below the deleted height changes) *)
+  Inductive reachable_chain : env -> pool -> Prop :=
+  | rch_start : forall e, reachable_chain e (empty_pool sigT)
+  | rch_step : forall e p p', reachable_chain e p -> pool_step e p p' -> reachable_chain e p'
+  | rch_apply : forall e e' p, reachable_chain e p ->
+      (forall c, In c (all p) -> env_agrees_at e e' (sc_height c)) -> reachable_chain e' p
+  | rch_delete : forall e e' p H, reachable_chain e p ->
+      (forall h, h < H -> env_agrees_at e e' h) -> reachable_chain e' (on_delete_block p H).
+
+  Theorem reachable_chain_ok : forall e p, reachable_chain e p -> pool_ok e (all p).
+  Proof.
+    induction 1.
+    - split; simpl; constructor.
+    - eapply pool_step_ok; eauto.
+    - eapply pool_ok_env; eauto.
+    - eapply delete_block_preserves_ok; eauto.
+  Qed.
+
   Hypothesis Hfav : forall ks ss m ks',
     Forall2 (fun k s => vrf k m s = true) ks ss -> ks <> [] -> Permutation ks ks' -> fav ks' m (agg ss) = true.
   Hypothesis Hlen : forall ss, sig_len0 (agg ss) = false.
@@ -234,5 +298,12 @@ Section PoolFacts.
     good_result sigT msgT sig_len0 msg_of fav e (get_aggregate_commit agg e (gossiped p) (nongossiped p)).
   Proof.
     intros. eapply assemble_accepts; eauto. apply reachable_ok; auto.
+  Qed.
+
+  Theorem reachable_chain_assembles_accepted : forall e p,
+    params_wf e -> reachable_chain e p ->
+    good_result sigT msgT sig_len0 msg_of fav e (get_aggregate_commit agg e (gossiped p) (nongossiped p)).
+  Proof.
+    intros. eapply assemble_accepts; eauto. apply reachable_chain_ok; auto.
   Qed.
 End PoolFacts.
